@@ -2,6 +2,8 @@ import RjModel.Props.C13
 import RjModel.Props.C03
 import RjModel.Props.C11
 import RjModel.Generated.SlashTable
+import RjModel.Lemmas.SyncLemmas
+import RjModel.Lemmas.DoerLemmas
 /-! # C01 — a successful sync makes the destination a mirror of the source
 
 What is proved (for every tree pair, arrival order and poll schedule):
@@ -174,5 +176,140 @@ example : Generated.slashTable.length = 6 ∧
     modelCell (some (.file 1 1)) (some .folder) false true = .ba ∧
     modelCell (some .folder) none true true = .b false ∧
     modelCell (some (.file 1 1)) none true false = .x := by decide
+
+/-! ### the destination doer's half, over the file-system model -/
+
+/-- **Mirror, end to end on the file-system model.**  For every destination tree below the doer's
+root `r` (root and its ancestors are folders; tree-closed; listed completely, parents first) and every
+source tree (tree-closed, listed parents first, link targets as a doer reads them): executing the plan
+— the closed form of C13 on component paths: deletions in reverse listing order, then creations in
+source listing order, each as the doer's file-system calls — **never fails and never follows a link**
+(the result is `ok`, not `err`/`escape`), changes **nothing outside the root**, keeps the root a
+folder, and leaves at **every** relative path exactly what the source holds there: nothing where the
+source has nothing; a folder; the source's bytes with the source's time (or the destination's own
+file when it already carried that time: deemed up to date); a link whose text reads back as the
+source's target. -/
+theorem C01_mirror_fs {fs0 : FS} {r : FPath} {ld : List (FPath × Node)} {src : FPath → Option SEntry}
+    {ls : List (FPath × SEntry)} (hw : DestWF fs0 r ld) (hs : SrcWF src ls) :
+    ∃ fs', syncDest fs0 r src ls ld = .ok fs' ∧
+      (∀ q, ¬ r <+: q → fs'.get q = fs0.get q) ∧
+      fs'.get r = some .folder ∧
+      ∀ p, p ≠ [] → MirrorAt fs0 fs' r p (src p) :=
+  sync_mirror hw hs
+
+/-- how an entry of the file-system model appears in a listing (`entry_details_from_metadata`; the
+link kind `k` is whatever the probe gives: a unix destination does not compare it) -/
+def dOfNode (k : SymKind) : Node → Details
+  | .file b (.at m) => .file m b.length
+  | .file b .fresh => .file (-1) b.length
+  | .folder => .folder
+  | .symlink text => .symlink k (readLinkB text)
+  | .special => .folder      -- (never listed: the listing fails on it)
+
+def dOfSEntry (k : SymKind) : SEntry → Details
+  | .file b m => .file m b.length
+  | .folder => .folder
+  | .link t => .symlink k t
+
+/-- **The plan on the file-system model is the boss's plan**: `compatible` is `needs_delete = false`
+and `upToDate` is "`needs_delete = false` and `needs_copy = None`" of `boss_sync.rs` (C13's closed
+form is stated with these two functions), for a unix destination with same-time files skipped and
+source times at or after the epoch. -/
+theorem C01_plan_bridge (ks kd : SymKind) (e : SEntry) (n : Node) (hn : n ≠ .special)
+    (hm : ∀ b m, e = .file b m → 0 ≤ m) :
+    needsDelete ⟨true, false⟩ (dOfSEntry ks e) (dOfNode kd n) = !compatible e n ∧
+    (compatible e n = true → ((needsCopy ⟨true, false⟩ (dOfSEntry ks e) (dOfNode kd n)).isNone = upToDate e n)) := by
+  cases e with
+  | folder =>
+    cases n with
+    | file b' mt => cases mt <;> simp [dOfSEntry, dOfNode, needsDelete, compatible]
+    | folder => simp [dOfSEntry, dOfNode, needsDelete, needsCopy, compatible, upToDate]
+    | symlink t => simp [dOfSEntry, dOfNode, needsDelete, compatible]
+    | special => exact absurd rfl hn
+  | link t =>
+    cases n with
+    | file b' mt => cases mt <;> simp [dOfSEntry, dOfNode, needsDelete, compatible]
+    | folder => simp [dOfSEntry, dOfNode, needsDelete, compatible]
+    | symlink text =>
+      simp only [dOfSEntry, dOfNode, needsDelete, needsCopy, compatible, upToDate]
+      by_cases h : t = readLinkB text <;> simp [h]
+    | special => exact absurd rfl hn
+  | file b m =>
+    have hm0 := hm b m rfl
+    cases n with
+    | file b' mt =>
+      cases mt with
+      | «at» m' =>
+        simp only [dOfSEntry, dOfNode, needsDelete, needsCopy, compatible, upToDate, Bool.not_true, ↓reduceIte, true_and]
+        intro _
+        by_cases h : m = m'
+        · simp [h]
+        · simp only [h, ↓reduceIte, decide_false]
+          split <;> rfl
+      | fresh =>
+        simp only [dOfSEntry, dOfNode, needsDelete, needsCopy, compatible, upToDate, Bool.not_true, ↓reduceIte, true_and]
+        intro _
+        have : m ≠ -1 := by omega
+        simp only [this, ↓reduceIte]
+        split <;> rfl
+    | folder => simp [dOfSEntry, dOfNode, needsDelete, compatible]
+    | symlink t => simp [dOfSEntry, dOfNode, needsDelete, compatible]
+    | special => exact absurd rfl hn
+
+/-- **The operations of `syncDest` are what the doer model executes** for the boss's commands: with the
+root set (not spelled with a trailing slash) and a normalised relative path, `DeleteFolder`,
+`DeleteFile`/`DeleteSymlink`, `CreateFolder` and `CreateSymlink` are exactly `rmdir`, `unlink`,
+`mkdir` and `symlink(writeLinkB target)` at `root ++ path`, answered with an error response iff the
+call fails. -/
+theorem C01_exec_bridge (k : ChunkCfg) (keepOf : List FilterSpec → String → Bool) (st : DoerSt) (r p : FPath) (ps : String)
+    (hr : st.root = some (r, false)) (hp : relComps ps = some p) :
+    execCmd k keepOf st (.deleteFolder ps) = reply st (st.fs.rmdir (r ++ p)) .deleteFolder ∧
+    execCmd k keepOf st (.deleteFile ps) = reply st (st.fs.unlink (r ++ p)) .deleteFile ∧
+    (∀ kd, execCmd k keepOf st (.deleteSymlink ps kd) = reply st (st.fs.unlink (r ++ p)) .deleteSymlink) ∧
+    execCmd k keepOf st (.createFolder ps) = reply st (st.fs.mkdir (r ++ p)) .createFolder ∧
+    (∀ kd t, execCmd k keepOf st (.createSymlink ps kd t) = reply st (st.fs.mksymlink (r ++ p) (writeLinkB '/' t)) .createSymlink) := by
+  simp [execCmd, hr, Cmd.path?, fullOf, hp, Cmd.isFolderOp]
+
+/-- … and a file sent in one part (`CreateOrUpdateFile` with the time stamp, nothing in progress) is
+`putFile`: create/truncate, write, set the source's time. -/
+theorem C01_exec_bridge_file (st : DoerSt) (ps : String) (full : FPath) (b : List UInt8) (m : Int)
+    (h1 : st.inProg = none) (h2 : st.failed = none) (fs' : FS) (h : putFile st.fs full b m = .ok fs') :
+    execCreateOrUpdate st ps full b (some m) false = .ok { st with fs := fs' } [] := by
+  unfold putFile OpR.bind at h
+  unfold execCreateOrUpdate
+  simp only [h2, h1]
+  cases hc : st.fs.createTrunc full with
+  | err => simp [hc] at h
+  | escape => simp [hc] at h
+  | ok fs1 =>
+    simp only [hc] at h
+    cases ha : fs1.append full b with
+    | err => simp [ha] at h
+    | escape => simp [ha] at h
+    | ok fs2 =>
+      simp only [ha] at h
+      simp [ha, reply, h]
+
+/-- Non-vacuity: a destination root holding a stale file, a folder with a child and a link; a source with
+a folder, a file in it and a link with a non-normal text.  The run ends `ok` in the mirror state. -/
+example :
+    let fs0 : FS := ⟨[(["R".toList], .folder), (["R".toList, "old".toList], .file [1] (.at 5)),
+      (["R".toList, "d".toList], .folder), (["R".toList, "d".toList, "x".toList], .symlink (utf8 "nowhere".toList)),
+      (["R".toList, "l".toList], .symlink (utf8 "b".toList))]⟩
+    let src : FPath → Option SEntry := fun p =>
+      if p = ["d".toList] then some .folder else if p = ["d".toList, "f".toList] then some (.file [7, 8] 9)
+      else if p = ["l".toList] then some (.link (readLinkB (utf8 "a//b/".toList))) else none
+    let ls : List (FPath × SEntry) := [(["d".toList], .folder), (["d".toList, "f".toList], .file [7, 8] 9),
+      (["l".toList], .link (readLinkB (utf8 "a//b/".toList)))]
+    let ld : List (FPath × Node) := [(["old".toList], .file [1] (.at 5)), (["d".toList], .folder),
+      (["d".toList, "x".toList], .symlink (utf8 "nowhere".toList)), (["l".toList], .symlink (utf8 "b".toList))]
+    (match syncDest fs0 ["R".toList] src ls ld with
+    | .ok fs' =>
+      decide (fs'.get ["R".toList, "old".toList] = none) && decide (fs'.get ["R".toList, "d".toList, "x".toList] = none) &&
+      decide (fs'.get ["R".toList, "d".toList] = some .folder) &&
+      decide (fs'.get ["R".toList, "d".toList, "f".toList] = some (.file [7, 8] (.at 9))) &&
+      decide (fs'.get ["R".toList, "l".toList] = some (.symlink (utf8 "a/b".toList)))
+    | _ => false) = true := by
+  decide
 
 end Rj.C01
